@@ -1,4 +1,5 @@
 """C16 — no implicit conversions: out-of-domain operands are type errors."""
+import re
 import mir
 import ops
 from ops import BINOP, VALUE, ERR, KINDS, OPS
@@ -804,8 +805,103 @@ def rule_R16_8(ctx, rule_id="R16.8"):
     return r
 
 
+PEQ_RE = re.compile(r"^<([A-Za-z_][\w:]*)(<.*>)? as std::cmp::PartialEq(<.*>)?>::(eq|ne)$")
+
+
+def _kind_enums(prog):
+    """Crate enums that carry Seed kinds: at least two of their variants are
+    named like variants of the value type (`Null`, `Bool`, `Int`, `Str`, ..)."""
+    v = prog.adts.get("eval::value::Value") or {}
+    names = {x["name"] for x in v.get("variants", [])}
+    out = set()
+    for path, a in prog.adts.items():
+        if a.get("kind") == "Enum" and len({x["name"] for x in a.get("variants", [])} & names) >= 2:
+            out.add(path)
+    return out
+
+
+def rule_R16_9(ctx):
+    """A derived `PartialEq` on an enum whose variants are Seed kinds answers
+    `false` for operands of different kinds.  Building a Seed boolean from
+    that answer is the implicit conversion C16 excludes (`1 == "1"` must be a
+    type error naming both types, in a folder or fast path just as in the
+    evaluator)."""
+    import anchors
+    prog = ctx.prog
+    r = RuleResult("R16.9", "no Seed boolean is built from a derived "
+                   "cross-kind equality (`derive(PartialEq)` on an enum of "
+                   "kinds compares discriminants first and says `false`)",
+                   "a constant folder or shortcut that answers `lit == lit` "
+                   "through derived equality turns a mismatched-kind "
+                   "comparison into `false` instead of a type error")
+    kinds = _kind_enums(prog)
+    derived = set()
+    for g in prog.fns.values():
+        m = PEQ_RE.match(g.path or "")
+        if m and g.from_expansion and m.group(1) in kinds:
+            derived.add(m.group(1))
+    n = 0
+    for f in prog.hand_fns():
+        if f.from_expansion or f.generated:
+            continue
+        for c in f.calls():
+            m = PEQ_RE.match(c.res_full or "")
+            if c.is_ptr or not m or m.group(1) not in derived or not c.dst or c.dst[1]:
+                continue
+            n += 1
+            # forward, intraprocedural: copies, `!`, casts of the answer
+            tainted = {c.dst[0]}
+            changed = True
+            hit = None
+            while changed and hit is None:
+                changed = False
+                for bb, i, pl, rv, sp in f.assigns():
+                    ops_ = []
+                    if rv[0] in ("use", "un", "cast") and len(rv) > 1:
+                        ops_ = [x for x in rv[1:] if isinstance(x, (list, tuple)) and x and x[0] in ("cp", "mv")]
+                    elif rv[0] == "agg":
+                        ops_ = [x for x in rv[2] if mir.is_place_operand(x)]
+                    if not any(mir.op_place(o)[0] in tainted for o in ops_):
+                        continue
+                    if rv[0] == "agg":
+                        kd = rv[1]
+                        if kd.get("k") == "adt" and kd.get("adt") in kinds and kd.get("variant") == "Bool":
+                            hit = (kd["adt"], mir.span_loc(sp))
+                            break
+                        continue
+                    if not pl[1] and pl[0] not in tainted:
+                        tainted.add(pl[0])
+                        changed = True
+                if hit is None:
+                    for c2 in f.calls():
+                        if not c2.is_ptr and "Bool" in anchors.ctor_variants(prog, c2.res) and any(
+                                mir.is_place_operand(a) and mir.op_place(a)[0] in tainted for a in c2.args):
+                            hit = (c2.res, c2.loc)
+                            break
+            if hit and any((not d.is_ptr) and (d.res or "").endswith("mem::discriminant")
+                           and (d.bb == c.bb or f.dominates(d.bb, c.bb)) for d in f.calls()):
+                # kinds compared first (`discriminant(&l) == discriminant(&r)`):
+                # the derived equality then only sees operands of one kind
+                r.ok()
+                r.notes.append("%s: derived equality on %s behind a discriminant comparison" % (f.path, m.group(1)))
+            elif hit:
+                r.fail("%s | Seed boolean from derived equality on %s" % (f.path, m.group(1)),
+                       "%s builds %s::Bool from `%s` on %s, whose derived "
+                       "PartialEq answers `false` for different kinds: a "
+                       "mismatched-kind `==`/`!=` is answered instead of "
+                       "rejected" % (f.path, hit[0], m.group(4), m.group(1)), where=hit[1])
+            else:
+                r.ok()
+    r.inst("kind-carrying enums: %s; with derived PartialEq: %s; comparisons through it: %d"
+           % (", ".join(sorted(kinds)), ", ".join(sorted(derived)) or "none", n))
+    if not n:
+        r.ok()
+    r.require_floor("kind-carrying enums (the value type among them)", len(kinds), 1)
+    return r
+
+
 def run(ctx):
-    rs = [rule_R16_1(ctx), rule_R16_2(ctx), rule_R16_3(ctx), rule_R16_4(ctx), rule_R16_7(ctx), rule_R16_8(ctx)]
+    rs = [rule_R16_1(ctx), rule_R16_2(ctx), rule_R16_3(ctx), rule_R16_4(ctx), rule_R16_7(ctx), rule_R16_8(ctx), rule_R16_9(ctx)]
     # nested positions of ==: an identity shortcut must not accept kinds the
     # structural comparison rejects (two functions)
     import c10
